@@ -75,7 +75,7 @@ def run(ctx):
                 nontrivial=lambda c, a: bool(a))
     # the Lean specification on the same cases vs the generator's declaration map
     ctx.phase("oracle")
-    spec = ctx.run_driver(["scopespec" + dl[5:] for _, _, _, _, _, dl in res])
+    spec = scopelib.run_lines([core.DRIVER_BIN], ["scopespec" + dl[5:] for _, _, _, _, _, dl in res])
     bad_spec = []
     bad_wf = []
     for (c, qs, impl, model, hl, dl), sp in zip(res, spec):
